@@ -373,13 +373,15 @@ def plan(tier, seed):
     if tier == 'quick':
         for k in range(6):
             shards.append({'kind': 'sampled', 'cells': cells[k::6], 'seed': seed * 100 + k, 'n': 500, 'shrink': False})
+        st_cells = [c for c in cells if c[1] == 'ST']
         for k in range(2):
-            shards.append({'kind': 'message', 'cells': cells[k::2], 'seed': seed * 100 + 10 + k, 'n': 80, 'shrink': False})
+            shards.append({'kind': 'message', 'cells': st_cells[k::2], 'seed': seed * 100 + 10 + k, 'n': 80, 'shrink': False})
     else:
         for k in range(16):
             shards.append({'kind': 'sampled', 'cells': cells[k::16], 'seed': seed * 1000 + k, 'n': 6000, 'shrink': True})
+        st_cells = [c for c in cells if c[1] == 'ST']
         for k in range(8):
-            shards.append({'kind': 'message', 'cells': cells[k::8], 'seed': seed * 1000 + 50 + k, 'n': 500, 'shrink': True})
+            shards.append({'kind': 'message', 'cells': st_cells[k::8], 'seed': seed * 1000 + 50 + k, 'n': 500, 'shrink': True})
     for k in range(2 if tier == 'quick' else 16):
         shards.append({'kind': 'fuzz', 'k': k + 1, 'seed': seed * 1000 + 700 + k, 'runs': 15000 if tier == 'quick' else 300000})
     return shards
